@@ -23,6 +23,18 @@ def cases(draw, procs=False):
     for L in spec['layers']:
         if draw(st.integers(0, 99)) < 60:
             L['hooks'] = sorted(set(L['hooks']) | {'setUp', 'tearDown'}, key=gen.HOOKS.index)
+    no_spawn = False
+    if procs and draw(st.integers(0, 5)) == 0:
+        # after this test no further subprocess can be started from the process that ran it (sys.executable is gone):
+        # layers that must run in fresh subprocesses are then lost, but never run in a process that is stuck with a layer.
+        # Preferably a test of a layer that cannot be torn down (it runs in the coordinating process).
+        nie_layers = {i for i, L in enumerate(spec['layers']) if (L.get('faults') or {}).get('tearDown') == 'NIE'}
+        pairs = list(gen.iter_tests(spec))
+        pref = [t for node, t in pairs if node.get('layer') in nie_layers]
+        pool = pref or [t for _, t in pairs]
+        t = pool[draw(st.integers(0, len(pool) - 1))]
+        t.setdefault('acts', {}).setdefault('body', []).append(['set_executable', '/nonexistent/ztv/python'])
+        no_spawn = True
     names = [L['name'] for L in spec['layers']]
     opts = {'repeat': draw(st.sampled_from([1, 1, 1, 2])),
             'shuffle': draw(st.one_of(st.none(), st.integers(0, 999))),
@@ -37,6 +49,9 @@ def cases(draw, procs=False):
             opts['j'] = None
             opts['layer'] = []
             opts['stop'] = False
+        if no_spawn and draw(st.integers(0, 3)):
+            opts['j'] = None
+            opts['layer'] = []
     return {'spec': spec, 'opts': opts}
 
 
@@ -68,7 +83,10 @@ def oracle(spec, opts, run, procs):
             viol.append(('C01/child-runs-several-layers', 'subprocess %s ran tests of layers %s'
                          % (pid, sorted(layers_here))))
     # after a NotImplementedError tear-down in the parent, the remaining runnable layers must still run
-    if not opts.get('stop') and run.exc is None:
+    no_spawn = any(e['ev'] == 'set_executable' and e['pid'] == run.main_pid for e in run.trace)
+    if no_spawn:
+        labels.append('subprocesses-cannot-be-started')
+    if not opts.get('stop') and run.exc is None and not no_spawn:
         sel = model.select(spec, layer_pats=opts.get('layer') or None)
         ok_layers = common.runnable_layers(w, spec)
         started = {}
